@@ -44,9 +44,12 @@ def transitions(ctx):
             else:
                 ctx.ob(P, 'RF2-emcy-transition', f, site, 'register update and one frame only on a real transition')
     # transition detection itself
+    e_ = min(10, const_eval_name(m, 'CO_EMCY_N') - 2)       # an error number inside the configured range
+    eb, ebit = e_ >> 3, 1 << (e_ & 7)
+    other = 0x80 if ebit != 0x80 else 0x40
     for cur in (0, 1):
         for state in (0, 1):
-            trs = _run(m, 'COEmcySetErr', {'err': 10, 'state': state, 'emcy->Err[1]': (4 if cur else 0) | 0x80},
+            trs = _run(m, 'COEmcySetErr', {'err': e_, 'state': state, 'emcy->Err[%d]' % eb: (ebit if cur else 0) | other},
                        filt=lambda k, f: f == ('CO_EMCY', 'Err'))
             site = 'COEmcySetErr active=%d request=%d' % (cur, state)
             bad = None
@@ -56,7 +59,7 @@ def transitions(ctx):
                 t = trs[0]
                 exp_ret = 1 if cur != state else 0
                 st = [e[2] for e in t.stores()]
-                exp_st = ([(0x80 | 4) if state else 0x80] if cur != state else [])
+                exp_st = ([(other | ebit) if state else other] if cur != state else [])
                 if t.ret != exp_ret or st != exp_st:
                     bad = 'returns %s stores %s, required %d / %s' % (t.ret, st, exp_ret, exp_st)
             if bad:
